@@ -15,7 +15,7 @@ import types
 
 import numpy as np
 
-from .core import RunResult, Viol, exc_sig
+from .core import RunResult, Viol, exc_sig, quarantined
 from . import seams, typegen, model as M
 from .layout import Decoder, DecodeError, c_indices
 from .bufsim import pbytes
@@ -428,7 +428,10 @@ class GenSource:
                 return None
             if rng.random() < 0.3:
                 value["as_obj"] = True  # an xo.String object (with its own, smaller capacity) instead of a str
-        return {"op": "set", "obj": o.k, "path": p, "value": value, "via": self._via(o)}
+        op = {"op": "set", "obj": o.k, "path": p, "value": value, "via": self._via(o)}
+        if isinstance(p[-1], list) and rng.random() < 0.15 and all(0 <= i < 100 for i in p[-1]):
+            op["np_index"] = rng.choice(["int8", "uint8", "int16", "int64"])  # index given as numpy integers
+        return op
 
     def _via(self, o):
         if o.hnd is None:
@@ -437,6 +440,18 @@ class GenSource:
 
     def set_compound(self, w):
         rng = self.rng
+        if rng.random() < 0.12:
+            # the whole object is updated in place through a kept handle (obj._update(other)): a value of
+            # the same total size is byte-copied, whatever its internal split of the dynamic fields
+            tops = [o for o in w.live_objs() if w.schema[o.t]["k"] == "struct" and not typegen.has_refs(w.schema, o.t)]
+            rng.shuffle(tops)
+            for o in tops[:3]:
+                cands = [x for x in w.live_objs(o.t) if x.k != o.k]
+                if cands:
+                    via = self._via(o)
+                    if quarantined("set.whole_update_via_other_handle") and o.hnd is not None:
+                        via = "handle"  # known finding C06-stale-handle-after-whole-update lives in the other case
+                    return {"op": "set", "obj": o.k, "path": [], "value": {"obj": rng.choice(cands).k}, "via": via}
         if rng.random() < 0.3:
             # the value is another xobject of the same type (any buffer); for compounds that hold
             # references this re-binds them field by field: aliased in the same buffer, duplicated across
@@ -523,6 +538,8 @@ class GenSource:
                 target = v if m is None else {"m": m, "v": v}
             elif m is not None:
                 target["m"] = m
+                if "obj" in target and rng.random() < 0.3:
+                    target["via_union"] = True
         return {"op": "bind", "obj": o.k, "path": p, "target": target, "via": self._via(o)}
 
     def copy(self, w):
@@ -968,10 +985,47 @@ class Step:
         if reserved and reserved[0] < ext:
             self.viol("C03", "extent_exceeds_reservation", [self.kind, typegen.features(w.schema, o.t)], f"reserved {reserved[0]} extent {ext}")
 
+    def op_update_whole(self, o):
+        """obj._update(other) on a whole top-level struct through the kept handle or a view."""
+        w, op = self.w, self.op
+        if not (isinstance(op.get("value"), dict) and "obj" in op["value"]) or w.schema[o.t]["k"] != "struct" or typegen.has_refs(w.schema, o.t):
+            raise Skip()
+        src = self.get_obj(op["value"]["obj"])
+        if src.t != o.t or src is o:
+            raise Skip()
+        same_size = self._extent(o) == self._extent(src) and self._extent(o) > 0
+        fits = _shape_compatible(w.schema, o.t, o.node, src.node) and _same_caps(w.schema, o.t, o.node, src.node)
+        if not (same_size or fits):
+            raise Skip()  # may legitimately be refused
+        start = o.handle() if op.get("via") == "handle" and o.hnd is not None else o.view()
+        self._allow_path(o, [])
+        self.res.features.add(f"update_whole:{typegen.features(w.schema, o.t)}:{'same_size' if same_size else 'fits'}:{op.get('via')}")
+        if src.buf is not o.buf:
+            self.res.fault("foreign_operand")
+        try:
+            start._update(src.handle())
+        except Exception as e:
+            self.outcome = "raised:" + exc_sig(e)
+            self.viol("C10", "fitting_assignment_raised", ["update_whole", exc_sig(e), typegen.features(w.schema, o.t)], f"{type(e).__name__}: {e}")
+            return
+        vnode = M.copy_node(w.schema, o.t, src.node, False)
+        if same_size:
+            # byte copy: the object takes over the value wholesale (shapes, capacities, split)
+            o.node.f = vnode.f
+            if self.pre_layout is not None:
+                self.pre_layout.pop(o.k, None)
+            if not fits:
+                self.res.probe("whole_update_same_size_other_split")
+        else:
+            M.assign_into(w.schema, o.t, o.node, vnode)
+        self.res.probe("whole_object_update")
+
     def op_set(self):
         w, op = self.w, self.op
         o = self.get_obj(op["obj"])
         path = op["path"]
+        if not path:
+            return self.op_update_whole(o)
         try:
             t, node, parent, key = M.node_at(w.schema, o.t, o.node, path)
         except Exception:
@@ -1001,6 +1055,9 @@ class Step:
             if isinstance(last, str):
                 setattr(holder, last, py)
             else:
+                if op.get("np_index"):
+                    last = [np.dtype(op["np_index"]).type(i) for i in last]
+                    self.res.probe("numpy_integer_index")
                 holder[tuple(last) if len(last) > 1 else last[0]] = py
         except Exception as e:
             self.outcome = "raised:" + exc_sig(e)
@@ -1280,9 +1337,27 @@ class Step:
                 prop = step_prop.get(kind, "C10")
                 if getattr(o.buf, "_sim_restored", False):
                     prop = "C20"
+                if o.hnd is not None and w.schema[o.t]["k"] != "str":
+                    try:
+                        gotv = read_handle(w, o.t, o.view())
+                        if M.same(M.snapshot(w.schema, o.t, o.node), gotv):
+                            self.viol("C06", "kept_handle_stale_view_agrees_with_model", [kind, "written_through_" + str(self.op.get("via", "-")), typegen.features(w.schema, o.t)], f"object {o.k}: reading the kept handle raised {type(e).__name__}: {e} (model == rebuilt view); after {str(self.op)[:300]}")
+                            continue
+                    except Exception:
+                        pass
                 self.viol(prop, "handle_read_raised", [kind, exc_sig(e), typegen.features(w.schema, o.t)], f"object {o.k}: {type(e).__name__}: {e}")
                 continue
             want = M.snapshot(w.schema, o.t, o.node)
+            if not M.same(want, got) and o.hnd is not None and w.schema[o.t]["k"] != "str":
+                # is it the kept handle that went stale while the bytes are right?  A view rebuilt from
+                # (buffer, offset) that agrees with the model says so: that is C06's business
+                try:
+                    gotv = read_handle(w, o.t, o.view())
+                except Exception:
+                    gotv = None
+                if gotv is not None and M.same(want, gotv):
+                    self.viol("C06", "kept_handle_stale_view_agrees_with_model", [kind, "written_through_" + str(self.op.get("via", "-")), typegen.features(w.schema, o.t)], f"object {o.k}: {M.first_diff(want, got)} (model == rebuilt view, kept handle differs); after {str(self.op)[:300]}")
+                    continue
             if not M.same(want, got):
                 d = M.first_diff(want, got)
                 xref = M.crosses_ref(d) or (d is not None and "ref target location" in d)
